@@ -23,8 +23,11 @@ for d in sorted(glob.glob("/verif/harmless/*/meta.json")):
         res = "**alarm** — " + "; ".join(what)
     else:
         res = f"silent ({len(m.get('checks', {}))} checks)"
-    rows.append((hid, summ[:300], res.replace("|", "/"), (m.get("note") or "").replace("|", "/")[:400]))
-lines = ["| change | what it does | all 20 checks on the changed tree (first run) | remark |", "|---|---|---|---|"]
+    fp = m.get("final_pass") or {}
+    fin = ("silent" if not fp.get("alarms") else "**alarm** " + ",".join(fp["alarms"])) + f" ({len(fp.get('checks', {}))} checks)" if fp else "-"
+    rows.append((hid, summ[:300], res.replace("|", "/"), fin, (m.get("note") or "").replace("|", "/")[:400]))
+lines = ["| change | what it does | all 20 checks on the changed tree (first run) | final pass (final machinery, /repo HEAD) | remark |",
+         "|---|---|---|---|---|"]
 lines += ["| " + " | ".join(r) + " |" for r in rows]
 lines.append("")
 lines.append(f"{len(rows)} changes, {n_checks} check runs, {n_alarm_runs} of them raised an alarm at the first run.")
